@@ -407,6 +407,10 @@ func checkC12(r *Report) {
 	nGE := guardBeforeEraseRule(r, p, "C12.i/GUARD-BEFORE-ERASE")
 	r.floor("C12.i/GUARD-BEFORE-ERASE", "guards in package semver that refuse a version because of its prerelease tags", nGE, 1)
 	syntheticBoundRule(r, p, "C12.j/SYNTHETIC-BOUND-INERT")
+	nWG := wildcardGuardRule(r, p, "C12.l/WILDCARD-GUARD")
+	r.floor("C12.l/WILDCARD-GUARD", "calls of the matcher from methods of Constraint", nWG, 2)
+	nUA := unboundedAboveRule(r, p, "C12.m/UNBOUNDED-ABOVE")
+	r.floor("C12.m/UNBOUNDED-ABOVE", "decisions of the PEP 440 comparator taken before the numbers", nUA, 1)
 	nOE := orderedExitRule(r, p, "C12.k/ORDERED-EXIT")
 	r.floor("C12.k/ORDERED-EXIT", "loops over the spans of a set in package semver", nOE, 4)
 	sortWholeRule(r, p, "C12.g/SORT-WHOLE")
